@@ -109,6 +109,8 @@ def run(ctx):
                 cmp("Exp_SO3", rot.Exp_SO3(psi.copy()), E_v, where)
                 cmp("T_SO3", rot.T_SO3(psi.copy()), T_v, where)
                 cmp("T_SO3_inv", rot.T_SO3_inv(psi.copy()), Ti_v, where)
+                # the time derivative of the tangent map along every direction (among them rates parallel to psi)
+                cmp("T_SO3_dot", rot.T_SO3_dot(psi.copy(), dirf.copy()), T_d, dict(where, psi_dot=dirf.tolist()))
                 if unit:
                     kk = unit[0]
                     cmp("Exp_SO3_psi", np.asarray(rot.Exp_SO3_psi(psi.copy()))[:, :, kk], E_d, dict(where, k=kk))
@@ -129,7 +131,6 @@ def run(ctx):
                         LH = np.asarray(rot.Log_SE3_H(np.asarray(rot.Exp_SE3(hh))))
                         cmp("Log_SE3_H : Exp_SE3_h", np.einsum("ijk,jkl->il", LH, H_h), np.eye(6), dict(where, r=rr.tolist()))
                 else:
-                    cmp("T_SO3_dot", rot.T_SO3_dot(psi.copy(), dirf.copy()), T_d, dict(where, psi_dot=dirf.tolist()))
                     # the derivative arrays contracted with the direction
                     cmp("Exp_SO3_psi . direction", np.einsum("ijk,k->ij", np.asarray(rot.Exp_SO3_psi(psi.copy())), dirf), E_d, where)
                     cmp("T_SO3_inv_psi . direction", np.einsum("ijk,k->ij", np.asarray(rot.T_SO3_inv_psi(psi.copy())), dirf), Ti_d, where)
@@ -177,7 +178,7 @@ def run(ctx):
             f"{ncmp} comparisons")
     ctx.coverage = {"states": r.distinct, "transitions": max(r.generated, 1), "traces_validated_against_impl": ncmp, "samples": samples or [{"case": cases[0]["case"]}],
                     "points": len(npoints), "exhaustive": True,
-                    "rule": "6 rays (thorough: 16; integer vectors of integer length 1 .. 13) x 4 directions (the unit vectors, one general) x scales 2^-2 .. 2^-30; every entry of the maps and "
+                    "rule": "6 rays (thorough: 16; integer vectors of integer length 1 .. 13) x 5 directions (the unit vectors, one general, the ray itself) x scales 2^-2 .. 2^-30; every entry of the maps and "
                             "of their derivatives along the direction"}
     ctx.assumptions = ["sin, cos, cot(a/2) are evaluated by the harness to more than 40 digits in rational arithmetic; the comparison tolerance is 1e-7 relative to 1 + |value| (the routines' closed forms lose digits to cancellation like 1e-16 / |psi|: about 1e-8 at |psi| ~ 1e-8; the defects found were errors of 1e-4 to 0.5)",
                        "claimed for Exp_SO3_psi, T_SO3_psi, T_SO3_dot, T_SO3_inv_psi, Exp_SE3_h (and the maps themselves); Log_SO3_A and Log_SE3_H are not covered; the "
